@@ -1,2 +1,140 @@
-/-! Driver for C03 (stub: not built yet). -/
-def main : IO Unit := pure ()
+import Drivers.Proto
+import PymocaVerif.Model.ExprGrammar
+/-! Driver for C03: the table-driven expression parser, the Modelica printer and the literal values of
+    `PymocaVerif.Model.ExprGrammar` over JSON.
+
+    trees:  ["num",lexeme] ["str",s] ["bool",b] ["ref",name] ["bin",op,l,r] ["pre",op,e] ["pow",op,a,b]
+            ["paren",e] ["if",[[c,t],…],else] ["call",f,[args…]]
+    tokens: "(" ")" "," "if" "then" "elseif" "else", operator lexemes, atoms as ["num",lexeme] … -/
+open Lean Drivers PymocaVerif.ExprGrammar
+
+def atomToJson : Atom → Json
+  | .num l => Json.arr #[Json.str "num", Json.str l]
+  | .str s => Json.arr #[Json.str "str", Json.str s]
+  | .bool b => Json.arr #[Json.str "bool", Json.bool b]
+  | .ref n => Json.arr #[Json.str "ref", Json.str n]
+
+def atomOfJson (kind : String) (v : Json) : Except String Atom :=
+  match kind with
+  | "num" => do pure (.num (← v.getStr?))
+  | "str" => do pure (.str (← v.getStr?))
+  | "ref" => do pure (.ref (← v.getStr?))
+  | "bool" => do pure (.bool (← v.getBool?))
+  | k => throw s!"bad-atom {k}"
+
+def tokToJson : Tok → Json
+  | .atom a => atomToJson a
+  | .op s => Json.str s.lexeme
+  | .lp => Json.str "(" | .rp => Json.str ")" | .comma => Json.str ","
+  | .kif => Json.str "if" | .kthen => Json.str "then" | .kelseif => Json.str "elseif" | .kelse => Json.str "else"
+
+def tokOfJson (j : Json) : Except String Tok :=
+  match j with
+  | .str "(" => pure .lp | .str ")" => pure .rp | .str "," => pure .comma
+  | .str "if" => pure .kif | .str "then" => pure .kthen | .str "elseif" => pure .kelseif | .str "else" => pure .kelse
+  | .str s => match Sym.ofLexeme? s with
+    | some y => pure (.op y)
+    | none => throw s!"bad-token {s}"
+  | .arr a => do
+    let k ← (a[0]?.getD Json.null).getStr?
+    pure (.atom (← atomOfJson k (a[1]?.getD Json.null)))
+  | _ => throw "bad-token"
+
+def bopOf (s : String) : Except String BOp :=
+  match (Sym.ofLexeme? s).bind Sym.bin? with
+  | some o => pure o | none => throw s!"bad-binary-operator {s}"
+def popOf (s : String) : Except String POp :=
+  match (Sym.ofLexeme? s).bind Sym.pre? with
+  | some o => pure o | none => throw s!"bad-prefix-operator {s}"
+def wopOf (s : String) : Except String WOp :=
+  match (Sym.ofLexeme? s).bind Sym.pow? with
+  | some o => pure o | none => throw s!"bad-power-operator {s}"
+
+partial def treeOfJson (j : Json) : Except String E := do
+  let a ← j.getArr?
+  let k ← (a[0]?.getD Json.null).getStr?
+  let el (i : Nat) : Json := a[i]?.getD Json.null
+  match k with
+  | "bin" => do pure (.bin (← bopOf (← (el 1).getStr?)) (← treeOfJson (el 2)) (← treeOfJson (el 3)))
+  | "pre" => do pure (.pre (← popOf (← (el 1).getStr?)) (← treeOfJson (el 2)))
+  | "pow" => do pure (.pow (← wopOf (← (el 1).getStr?)) (← treeOfJson (el 2)) (← treeOfJson (el 3)))
+  | "paren" => do pure (.paren (← treeOfJson (el 1)))
+  | "if" => do
+    let bs ← (el 1).getArr?
+    if bs.size == 0 then throw "if-without-branch"
+    let pairs ← bs.toList.mapM fun b => do
+      let p ← b.getArr?
+      pure ((← treeOfJson (p[0]?.getD Json.null)), (← treeOfJson (p[1]?.getD Json.null)))
+    let elseE ← treeOfJson (el 2)
+    match pairs with
+    | [] => throw "if-without-branch"
+    | (c, t) :: more =>
+      pure (.ite c t (more.foldr (fun ct acc => Els.elif ct.1 ct.2 acc) (Els.els elseE)))
+  | "call" => do
+    let f ← (el 1).getStr?
+    let args ← (← (el 2).getArr?).toList.mapM treeOfJson
+    pure (.call f (args.foldr Args.cons Args.nil))
+  | k => do pure (.atom (← atomOfJson k (el 1)))
+
+mutual
+partial def treeToJson : E → Json
+  | .atom a => atomToJson a
+  | .bin o l r => Json.arr #[Json.str "bin", Json.str o.sym.lexeme, treeToJson l, treeToJson r]
+  | .pre q e => Json.arr #[Json.str "pre", Json.str q.sym.lexeme, treeToJson e]
+  | .pow w a b => Json.arr #[Json.str "pow", Json.str w.sym.lexeme, treeToJson a, treeToJson b]
+  | .paren e => Json.arr #[Json.str "paren", treeToJson e]
+  | .ite c t r =>
+    let (bs, el) := elsToJson r
+    Json.arr #[Json.str "if", Json.arr (#[Json.arr #[treeToJson c, treeToJson t]] ++ bs), el]
+  | .call f as => Json.arr #[Json.str "call", Json.str f, Json.arr (argsToJson as)]
+partial def elsToJson : Els → Array Json × Json
+  | .els e => (#[], treeToJson e)
+  | .elif c t r =>
+    let (bs, el) := elsToJson r
+    (#[Json.arr #[treeToJson c, treeToJson t]] ++ bs, el)
+partial def argsToJson : Args → Array Json
+  | .nil => #[]
+  | .cons e r => #[treeToJson e] ++ argsToJson r
+end
+
+def optTree : Option E → Json
+  | some e => treeToJson e
+  | none => Json.null
+
+def fuelFor (ts : List Tok) : Nat := 8 * ts.length + 16
+
+def handle (req : Json) : Except String Json := do
+  let op ← getStr req "op"
+  match op with
+  | "mprint" => do
+    let e ← treeOfJson (← getObj req "tree")
+    let ts := mprint e
+    pure (Json.mkObj [("ok", true),
+      ("tokens", Json.arr (ts.map tokToJson).toArray),
+      ("expected", treeToJson (expected e)),
+      ("parsed", optTree (parseTop modelicaTbl (fuelFor ts) ts))])
+  | "print" => do
+    let e ← treeOfJson (← getObj req "tree")
+    let ts := pr modelicaTbl 0 e
+    pure (Json.mkObj [("ok", true),
+      ("tokens", Json.arr (ts.map tokToJson).toArray),
+      ("stripped", treeToJson (strip e)),
+      ("parsed", optTree (parseTop modelicaTbl (fuelFor ts) ts))])
+  | "parse" => do
+    let ts ← (← getArr req "tokens").toList.mapM tokOfJson
+    let r := parseTop modelicaTbl (fuelFor ts) ts
+    -- a result at some fuel is the result at every larger fuel (theorem parse_fuel_mono); a `none` is re-tried
+    -- with much more fuel so that it means "syntax error", not "fuel"
+    let r := match r with
+      | some e => some e
+      | none => parseTop modelicaTbl (64 * ts.length + 64) ts
+    pure (Json.mkObj [("ok", true), ("tree", optTree r)])
+  | "lit" => do
+    let lex ← getStr req "lexeme"
+    match litValue lex with
+    | none => pure (Json.mkObj [("ok", true), ("valid", false), ("int", false), ("num", "0"), ("den", "1")])
+    | some l => pure (Json.mkObj [("ok", true), ("valid", true), ("int", l.isInt),
+        ("num", Json.str (toString l.value.num)), ("den", Json.str (toString l.value.den))])
+  | o => throw s!"unknown-op {o}"
+
+def main : IO Unit := serve handle
